@@ -452,7 +452,7 @@ impl Check for C12 {
     }
     fn run(case: &C12Case, ctx: &Ctx) -> Result<CaseInfo, Violation> {
         match case.base.cfg.hasher {
-            HasherKind::Blake3 => run_case::<B3>(case, ctx),
+            HasherKind::Blake3 | HasherKind::TailLabel => run_case::<B3>(case, ctx),
             HasherKind::Sha2 => run_case::<S2>(case, ctx),
         }
     }
